@@ -118,3 +118,41 @@ Theorem C08_source_history_generated_only : forall h, Forall op_gen h -> hist_ok
   exists s, grun gempty h = Val s /\ gobs s (fold_left op_spec h []).
 Proof. exact g_history_generated_only. Qed.
 Print Assumptions C08_source_history_generated_only.
+
+(* ---- the position iterators REGENERATED from src/bitvector/mod.rs on every run (T5, Gen/FnsIters.v:
+   BitVectorBitPositionsIter::<BIT>::{new, with_pos, next} for both values of BIT, `next` with its refill `while`): the
+   positions collected through the regenerated functions, from the start or from any position, are exactly the positions of
+   the bit in the abstract bit list; after the first None every further call is None.  (The regenerated `next` leaves
+   `cur_position` at the last word it loaded when the refill loop runs off the end, the hand model leaves it unchanged:
+   [g_state_after] states the difference, which no sequence of calls can observe: [C08_source_positions_run].) *)
+From QwtModel Require Import BitVecW FnsIters FnsItersOk.
+Theorem C08_source_positions : forall bit b pos fuelw n,
+  bv_inv b -> pos < 2 ^ 64 -> (S (length (bv_words b)) <= fuelw)%nat -> len (bv_abs b) < N.of_nat n ->
+  (let! (d, nb, cp, cwp, cw) := g_pi_with_pos bit (bv_words b) (bv_nbits b) pos in
+   g_pi_collect bit fuelw d nb cp cwp cw n) = Val (positions_from bit (bv_abs b) pos) /\
+  (let! (d, nb, cp, cwp, cw) := g_pi_new bit (bv_words b) (bv_nbits b) in
+   g_pi_collect bit fuelw d nb cp cwp cw n) = Val (positions_from bit (bv_abs b) 0).
+Proof. exact g_positions_correct. Qed.
+Print Assumptions C08_source_positions.
+Theorem C08_source_positions_next : forall bit b st fuel,
+  words_ok (bv_words b) -> len (bv_words b) < 2 ^ 58 -> pi_reach b st ->
+  (S (length (bv_words b)) <= fuel)%nat ->
+  g_pi_next bit fuel (bv_words b) (bv_nbits b) (pi_cur_position st) (pi_cur_word_pos st) (pi_cur_word st) =
+  Val (bv_words b, bv_nbits b,
+       pi_cur_position (g_state_after bit b st), pi_cur_word_pos (g_state_after bit b st),
+       pi_cur_word (g_state_after bit b st), fst (pi_next bit b st)).
+Proof. exact g_pi_next_ok. Qed.
+Print Assumptions C08_source_positions_next.
+Theorem C08_source_positions_run : forall bit b fuelw,
+  words_ok (bv_words b) -> len (bv_words b) < 2 ^ 58 -> (S (length (bv_words b)) <= fuelw)%nat ->
+  forall k st, pi_reach b st ->
+  g_pi_run bit fuelw (bv_words b) (bv_nbits b) (pi_cur_position st) (pi_cur_word_pos st) (pi_cur_word st) k =
+  Val (pi_run bit b st k).
+Proof. exact g_pi_run_ok. Qed.
+Print Assumptions C08_source_positions_run.
+Theorem C08_source_positions_fused : forall bit fuel data nbits cp cwp cw d' n' cp' cwp' cw',
+  g_pi_next bit fuel data nbits cp cwp cw = Val (d', n', cp', cwp', cw', None) ->
+  forall fuel', (1 <= fuel')%nat ->
+  g_pi_next bit fuel' d' n' cp' cwp' cw' = Val (d', n', cp', cwp', cw', None).
+Proof. exact g_pi_next_fused. Qed.
+Print Assumptions C08_source_positions_fused.
